@@ -90,7 +90,7 @@ CHECKS = {
             'mj_checkPos / mj_checkVel / mj_checkAcc (inductive search-loop invariants, all array lengths, with and without the sleep '
             'filter): if no checked entry is bad nothing changes; otherwise the corresponding warning is raised for the first bad index, '
             'its counter ends >= 1 and strictly larger than before when autoreset is disabled, and with autoreset the data is reset '
-            '(all other counters cleared). mj_warning itself is verified against its contract.',
+            '(all other counters cleared). mj_warning itself is verified against its contract. The bad-control check of mj_fwdActuation (PREFIX contract, entry to the exit of the control-check loop; stack allocator by its C19 contract): a bad control zeroes every control, is counted once under mjWARN_BADCTRL and the warning names a bad index; good controls pass unchanged and uncounted. The rest of mj_fwdActuation is not part of the verified text.',
             'Trusted: VC generator, clang, z3/cvc5. Assumed contracts: mj_resetData (clears warning counters, may rewrite mjData), '
             'mj_forward (keeps warning statistics). Sizes fit int. Not decided: finiteness of the state after a whole mj_step; the bad-ctrl '
             'check inside mj_fwdActuation.',
@@ -214,7 +214,7 @@ CHECKS = {
             'inside [min,max] whenever min <= max and x is not NaN, is the identity inside the range, saturates outside, passes NaN through; '
             'mju_min / mju_max return one of their arguments and bound both; clampVec (with and without an index list, inductive invariant) '
             'leaves every limited entry inside its range, unchanged if it already was, and never touches an unlimited entry; '
-            'mj_actuatorDisabled is exactly the bit of the actuator group in the disable mask for groups 0..30 and 0 otherwise.',
+            'mj_actuatorDisabled is exactly the bit of the actuator group in the disable mask for groups 0..30 and 0 otherwise. mju_muscleDynamics (reals): the activation moves toward the clamped control. At the real call site (mj_fwdActuation, PREFIX contract: entry to the exit of the control-check loop) limited controls end inside ctrlrange unless clamping is disabled or every control was zeroed because one was bad - through an any-input view of clampVec (a NaN stays a NaN, everything else ends in range) proved on its body.',
             'Trusted: VC generator, clang, z3/cvc5. Assumed: index lists distinct and in range; ranges ordered, no NaN in the clamped vector. '
             'Not decided (listed): mj_fwdActuation as a whole, transmissions, muscle curves.',
             'contracts + symbolic VC generation, z3 QF_FP (exact Float64) + LIA+arrays+quantifiers'),
